@@ -264,6 +264,18 @@ func (fx *fnExec) bindNames(info *calleeInfo, args []val) map[string]sval {
 		}
 		names[fmt.Sprintf("arg%d", i)] = fx.toSval(a)
 	}
+	// callee parameters renamed since the baseline: the old names stay usable in its contract
+	if info.fn != nil {
+		if old, ok := oldSigs[info.fn.String()]; ok && len(old) == len(info.names) {
+			for i := range old {
+				if i < len(args) && old[i] != info.names[i] && old[i] != "" && old[i] != "_" {
+					if _, clash := names[old[i]]; !clash {
+						names[old[i]] = names[info.names[i]]
+					}
+				}
+			}
+		}
+	}
 	return names
 }
 
